@@ -82,7 +82,9 @@ func (bi *BodyInspector) Inspect(ctx context.Context, r *http.Request, profile *
 
 	// Restore the body for downstream handlers by creating a new reader that combines
 	// what we've already read with any remaining unread content
-	r.Body = io.NopCloser(io.MultiReader(bytes.NewReader(buffer.Bytes()), r.Body))
+	// The restored body outlives this call, but the pooled buffer is recycled as soon as we
+	// return, so the peeked bytes must be copied rather than aliased.
+	r.Body = io.NopCloser(io.MultiReader(bytes.NewReader(bytes.Clone(buffer.Bytes())), r.Body))
 
 	modelName := bi.extractModelName(buffer.Bytes())
 	if modelName != "" {
